@@ -536,7 +536,12 @@ def e_nesting(rng, m):
         return k
     if k == "stray-text":
         target = rng.choice([m] + ([tcont] if tcont else []))
-        target["inner_xml"] = "stray text"
+        # a word, a single character, a character reference, CDATA, one
+        # character per line
+        target["inner_xml"] = rng.choice([
+            "stray text", "stray", ";", "x", ".", "\u00e9", "&#65;",
+            "<![CDATA[x]]>", "a\n  b\n  c", "&amp;", "0", "-", "\u00a0.",
+            "x <!-- c -->"])
         return k
     if k == "schema-in-schema":
         m["inner_xml"] = "<schema/>"
